@@ -218,7 +218,11 @@ func (fv *FV) execAssign(st *State, x *ast.AssignStmt) {
 		vals = fv.evalTuple(st, x.Rhs[0], len(x.Lhs))
 	} else {
 		for _, r := range x.Rhs {
-			vals = append(vals, fv.evalExpr(st, r))
+			v := fv.evalExpr(st, r)
+			if v.T != nil && isUserByRef(v.T) && !freshValueExpr(r) {
+				v.Shared = true // somebody else holds this object: an assignment has to copy it
+			}
+			vals = append(vals, v)
 		}
 	}
 	if st.guard == "false" {
@@ -327,6 +331,17 @@ func (fv *FV) assignTo(st *State, l ast.Expr, v Term, define bool) {
 		if vv, ok := obj.(*types.Var); ok && !vv.IsField() && vv.Parent() == vv.Pkg().Scope() {
 			fv.fail(y.Pos(), "assignment to package variable %s", y.Name)
 		}
+		if isUserByRef(obj.Type()) {
+			// a struct held by reference: `x = y` copies into x's object, `x := y` gives x a copy of its own
+			if cur, has := st.vars[obj]; has && !define {
+				fv.copyStruct(st, cur.S, v.S, obj.Type())
+				return
+			}
+			if v.Shared {
+				v = fv.cloneStruct(st, Term{S: v.S, Sort: sInt, T: obj.Type()})
+			}
+			v.Shared = false
+		}
 		v = fv.asParam(v, obj.Type())
 		v.T = obj.Type()
 		fv.setVar(st, obj, v)
@@ -380,6 +395,9 @@ func (fv *FV) storeIndex(st *State, base, idx, v Term, y *ast.IndexExpr) {
 }
 
 func (fv *FV) storeField(st *State, base Term, name string, v Term, y *ast.SelectorExpr) {
+	if isUserByRef(base.T) {
+		base.T = types.NewPointer(base.T) // a struct held by reference
+	}
 	pt, ok := base.T.Underlying().(*types.Pointer)
 	if !ok {
 		// struct value held in a local variable: rebuild the value
@@ -410,6 +428,11 @@ func (fv *FV) storeField(st *State, base Term, name string, v Term, y *ast.Selec
 	named, sty := structOf(pt.Elem())
 	f := findField(sty, name)
 	key, _ := fv.fieldComp(named, f)
+	if isUserByRef(f.Type()) {
+		// the field is an embedded object: assignment copies into it
+		fv.copyStruct(st, sel(fv.heapGet(st, key), base.S), v.S, f.Type())
+		return
+	}
 	v, _ = fv.coerce(v, Term{Sort: fv.sortOf(f.Type()), T: f.Type()})
 	if v.Sort != fv.sortOf(f.Type()) {
 		fv.fail(y.Pos(), "field %s: sort mismatch %s vs %s", name, v.Sort, fv.sortOf(f.Type()))
@@ -1685,7 +1708,7 @@ func (fv *FV) staticCallEffects(eff *loopEffects, callee *types.Func, recvExpr a
 	if recvExpr != nil && osig.Recv() != nil {
 		if _, wantPtr := osig.Recv().Type().(*types.Pointer); wantPtr {
 			if id, ok := ast.Unparen(recvExpr).(*ast.Ident); ok {
-				if _, isPtr := fv.typeOf(recvExpr).Underlying().(*types.Pointer); !isPtr {
+				if _, isPtr := fv.typeOf(recvExpr).Underlying().(*types.Pointer); !isPtr && !isUserByRef(fv.typeOf(recvExpr)) {
 					if o := fv.info.ObjectOf(id); o != nil {
 						eff.locals[o] = true // boxed and written back by the call
 					}
